@@ -5,7 +5,8 @@ Open Scope Z_scope.
 Record uobs := {
   o_href : zs; o_tostring : zs; o_tojson : zs; o_search : zs; o_host : zs; o_hostname : zs; o_port : zs; o_protocol : zs;
   o_params : option plist;       (* None: the searchParams getter was not called at this step *)
-  o_threw : bool
+  o_threw : bool;
+  o_silent : bool                (* the step was made blind: nothing but "did it throw" was read back *)
 }.
 
 Record case := {
@@ -43,6 +44,7 @@ Definition plist_eqb (a b : plist) : bool := list_eqb pair_eqb' a b.
 
 (* first difference between the model state and an observation: 1 search 2 host 3 hostname 4 port 5 protocol 6 params 7 threw *)
 Definition diff_obs (s : ustate) (threw : bool) (o : uobs) : option N :=
+  if o_silent o then (if negb (Bool.eqb threw (o_threw o)) then Some 7%N else None) else
   if negb (zs_eqb (get_search s) (o_search o)) then Some 1%N
   else if negb (zs_eqb (get_host s) (o_host o)) then Some 2%N
   else if negb (zs_eqb (get_hostname s) (o_hostname o)) then Some 3%N
@@ -77,7 +79,7 @@ Definition query_of_href (h : zs) : zs :=
   let '(nofrag, _) := cut_first 35 h in
   match snd (cut_first 63 nofrag) with Some q => q | None => [] end.
 
-Definition spec_obs (o : uobs) : list N :=
+Definition spec_obs (o : uobs) : list N := if o_silent o then [] else
   (if zs_eqb (o_href o) (o_tostring o) && zs_eqb (o_href o) (o_tojson o) then [] else [1%N]) ++
   (match o_search o with
    | [] => match o_params o with Some (_ :: _) => [2%N] | _ => [] end
@@ -91,8 +93,41 @@ Definition spec_obs (o : uobs) : list N :=
    end) ++
   (if zs_eqb (query_of_href (o_href o)) (match o_search o with 63 :: q => q | _ => [] end) then [] else [5%N]).
 
+(* assignments take effect (Proofs/UrlObjectProofs.v: search_/href_/params_change_takes_effect), evaluated on what the
+   implementation returned: 6 right after search was assigned the pairs read back are not those of the assigned query;
+   7 the same after an accepted href assignment; 8 right after a searchParams change the list is not that change applied to
+   the list read just before *)
+Definition obs_pairs (o : uobs) : plist :=
+  match o_params o with Some l => l | None => parse_raw (match o_search o with 63 :: q => q | _ => [] end) end.
+Definition list_change (o : uop) : option (plist -> plist) :=
+  match o with
+  | OAppend n v => Some (fun l => l ++ [(n, v)])
+  | ODelete n => Some (fun l => delete_as_written (valid_name n) l)
+  | OSet n v => Some (fun l => set_as_written n v l)
+  | OSort => Some stable_sort
+  | _ => None
+  end.
+Fixpoint spec_steps (c : case) (prev : uobs) (ops : list uop) (obs : list uobs) : list N :=
+  match ops, obs with
+  | o :: ops', ob :: obs' =>
+    (if o_silent ob then [] else
+     match o with
+     | OSearch v => if plist_eqb (obs_pairs ob) (parse_raw (fix_raw_query (trim_q v))) then [] else [6%N]
+     | OHref v => if o_threw ob then [] else
+                  match parse_of c v with
+                  | Some (_, _, q, _, _) => if plist_eqb (obs_pairs ob) (parse_raw (fix_raw_query q)) then [] else [7%N]
+                  | None => []
+                  end
+     | _ => match list_change o, o_silent prev, o_params prev, o_params ob with
+            | Some f, false, Some l0, Some l1 => if plist_eqb l1 (f l0) then [] else [8%N]
+            | _, _, _, _ => []
+            end
+     end) ++ spec_steps c ob ops' obs'
+  | _, _ => []
+  end.
+
 Definition check_case (c : case) : list verdict :=
-  let specs := flat_map spec_obs (c_obs c) in
+  let specs := flat_map spec_obs (c_obs c) ++ match c_obs c with ob0 :: obs => spec_steps c ob0 (c_ops c) obs | [] => [] end in
   map SpecFail (nodup N.eq_dec specs) ++
   match c_obs c with
   | [] => [Diff 8]
